@@ -15,8 +15,8 @@ import CookModel.Side.Bindings
   KV  := ( kv TEXT KIND FV )              KIND := number | range | text | empty
   IL  := ( ( il TEXT ( KV* ) )* )
 -/
-namespace Cook.Driver
-open Cook Sexp Ffi Proto
+namespace Cook.Driver.FfiH
+open Cook Sexp Ffi Proto RecipeSexp
 
 def rFloat (x : Float) : String := if x.isNaN then "nan" else toString x.toBits
 
@@ -139,6 +139,11 @@ def rGrouped (g : GroupedQuantity Float) : String :=
 
 def rList (m : IngredientList Float) : String :=
   " ".intercalate ((sortBy (fun a b => strLt a.1 b.1) m).map (fun p => s!"({renderText p.1} {rGrouped p.2})"))
+
+end Cook.Driver.FfiH
+
+namespace Cook.Driver
+open Cook Sexp Ffi Proto RecipeSexp FfiH
 
 def handleFfi : List String → Option String
   | "ffi" :: rest => do
